@@ -372,6 +372,9 @@ def run(run, tier, load):
             body = cx.body(it['path'])
             if body is None:
                 continue
+            if new_type(cx.facts, impl_key(cx, imp)):
+                run.note('impl Signal for %s is new (no such type on the reference tree): not one of the adaptors this property names, not examined' % impl_key(cx, imp))
+                continue
             n += 1
             try:
                 paths = check_generic(run, cx, cfg, imp, it['path'], body)
